@@ -1,10 +1,10 @@
-import LenaModel.Props.C08
+import LenaModel.Lemmas.C08Str
 import LenaModel.Props.C15
 import LenaModel.Model.C15Key
 /-! # C15 ↔ C08: the group key as `to_string` sees it
 
 The model of C15 keys the groups of `GroupBy` by the selected sub-context; the code keys them by its
-`to_string`.  With C08's theorem `to_string_inj` the two keyings coincide (`group_key_to_string`). -/
+`to_string`.  With C08's `to_string_inj` (re-derived here from `Lemmas/C08Str.lean`) the two keyings coincide (`group_key_to_string`). -/
 namespace Lena.C15
 
 theorem toLeaf08_inj : ∀ a b : Leaf, toLeaf08 a = toLeaf08 b → a = b := by
@@ -129,7 +129,11 @@ theorem group_key_to_string (names : List String) (hn : names.Nodup) (k1 k2 : Sl
     C08.toTokens (toVal08 names (.dict k1)) = C08.toTokens (toVal08 names (.dict k2)) ↔ k1 = k2 := by
   constructor
   · intro h
-    have := toVal08_inj names hn _ _ w1 w2 (C08.to_string_inj _ _ h)
+    -- C08's `to_string_inj`, from the lemmas it is proved with (this file does not depend on `Props/C08.lean`)
+    have hinj : C08.DictEq (toVal08 names (.dict k1)) (toVal08 names (.dict k2)) := by
+      rw [C08.toTokens_eq_raw, C08.toTokens_eq_raw] at h
+      exact C08.dictEq_of_canon_eq _ _ (C08.rawTokens_injective _ _ h)
+    have := toVal08_inj names hn _ _ w1 w2 hinj
     injection this
   · intro h; rw [h]
 
